@@ -1,6 +1,7 @@
 import KsiVerif.Proofs.Async
 import KsiVerif.Proofs.TcpLen
 import KsiVerif.Proofs.AsyncKeep
+import KsiVerif.Proofs.AsyncCount
 /-!
 # C13 — the asynchronous service completes every accepted request exactly once, correctly matched
 
@@ -518,5 +519,57 @@ theorem accepted_creates_one (s : Async.State) (now : Nat) (hw : W s) (h0 : (add
   rcases add_spec_W s now hw with ⟨hf, _⟩ | ⟨_, _, _, _, _, _, hlen⟩
   · rw [h0] at hf; cases hf
   · exact hlen
+
+/-! ### the counters -/
+
+theorem W_run (interp : Bytes → Pdu) (o : Tcp.Opts) (rcvT : Nat) (e : Tcp.Env) (s : Async.State) (hw : W s) :
+    W (run interp o rcvT e s).1 :=
+  (K_run interp o rcvT e s (List.range s.tcp.reqs.length) hw (fun h hh => Or.inr (List.mem_range.mpr hh))).1
+
+theorem W_add (s : Async.State) (now : Nat) (hw : W s) : W (add s now).1 := by
+  rcases add_spec_W s now hw with ⟨_, heq⟩ | ⟨_, hw', _⟩
+  · rw [heq]; exact hw
+  · exact hw'
+
+theorem counters_hist (interp : Bytes → Pdu) (o : Tcp.Opts) (rcvT : Nat) : ∀ (ops : List Op) (s : Async.State),
+    W s → CI s → CI (final interp o rcvT s ops)
+  | [], s, _, hc => hc
+  | op :: ops, s, hw, hc => by
+    unfold final
+    cases op with
+    | add now =>
+      simp only [stepOp]
+      exact counters_hist interp o rcvT ops _ (W_add s now hw) (CI_add s now hw hc)
+    | run e =>
+      simp only [stepOp]
+      have hw' := W_run interp o rcvT e s hw
+      have hc' := CI_run interp o rcvT e s hc
+      cases hr : run interp o rcvT e s with
+      | mk s' r =>
+        rw [hr] at hw' hc'
+        cases r <;> exact counters_hist interp o rcvT ops s' hw' hc'
+
+/-- **The counters.** Over every history from a new service with room for at least one request: the pending count is the number
+of cached handles not yet marked received, the received count the number of cached handles marked received plus one for a pushed
+configuration waiting to be handed out — so their sum is the number of requests in the cache (accepted and, by `never_lost` and
+`no_request_returned_twice`, exactly the ones not handed back yet) plus that one; in particular neither counter ever wraps. -/
+theorem counters_correct (interp : Bytes → Pdu) (o : Tcp.Opts) (rcvT : Nat) (cacheSize : Nat) (hc : 1 ≤ cacheSize) (ops : List Op) :
+    let s := final interp o rcvT (Async.init cacheSize) ops
+    s.pending = nUnf s ∧ s.received = nRcv s + (if s.conf then 1 else 0) ∧
+      s.pending + s.received = (occupied s).length + (if s.conf then 1 else 0) := by
+  have hw : W (Async.init cacheSize) := ⟨by simp [Async.init], by simp [Async.init], by simp [Async.init]; omega⟩
+  have h := counters_hist interp o rcvT ops _ hw (CI_init cacheSize)
+  refine ⟨h.pend, h.recv, ?_⟩
+  have hl := List.length_eq_countP_add_countP (rcvd (final interp o rcvT (Async.init cacheSize) ops).tcp)
+    (l := occupied (final interp o rcvT (Async.init cacheSize) ops))
+  have hp := h.pend
+  have hr := h.recv
+  unfold nUnf at hp
+  unfold nRcv at hr
+  have e : (occupied (final interp o rcvT (Async.init cacheSize) ops)).countP (fun a => decide ¬rcvd (final interp o rcvT (Async.init cacheSize) ops).tcp a = true)
+      = (occupied (final interp o rcvT (Async.init cacheSize) ops)).countP (fun x => !rcvd (final interp o rcvT (Async.init cacheSize) ops).tcp x) :=
+    List.countP_congr (fun x _ => by cases rcvd (final interp o rcvT (Async.init cacheSize) ops).tcp x <;> simp)
+  rw [e] at hl
+  omega
 
 end KsiVerif.Props.C13
